@@ -1,7 +1,7 @@
 from common import COMMON_TB
 
 CONFIG = {
-    "lean_modules": ["SA.Props.C16"],
+    "lean_modules": ["SA.Props.C16", "SA.Props.C16Direct"],
     "level_text": "Lean theorems over a state machine of the client's connection policy (HandleConnection / Upstreams.Connect as "
                   "threads that take the mutex, open over the upstream list, OpenStream on the session they saw, discard a lost "
                   "session and retry once; environment: carrier cut, server restart, Shutdown): a usable forward address serves "
@@ -17,7 +17,10 @@ CONFIG = {
                   "leaked rejected connection for the values before the repairs; the bound holds at every stall point of the handshake "
                   "(silent from the start, after the first response, inside the StartTLS handshake, inside a TLS record: "
                   "C16_bounded_abandon_stall over the regenerated list of every deadline call of client.go with its placement "
-                  "and the call chain of the handshake phases). Partial: real time is only bounded per attempt "
+                  "and the call chain of the handshake phases); a local connection served by the forward address leaves the upstreams "
+                  "untouched however the direct connection ends — closed or reset, by the target or the application — in every state "
+                  "of the shared upstreams (C16_direct_end_leaves_upstreams over the regenerated, path-sensitively evaluated return "
+                  "values of ConnectDirectly), and only a refused dial falls back to the upstreams. Partial: real time is only bounded per attempt "
                   "(the dial timeout is the operating system's, stdio carriers ignore deadlines), the multiplexer noticing a cut "
                   "(immediately on FIN/RST, else keep-alive <= 30 s) is its contract, outcomes of concurrent Connects are compared "
                   "with the code on the sequential schedule only.",
@@ -30,12 +33,17 @@ CONFIG = {
                   "and forward addresses; `poltls` runs a verifying client (CA, no insecure flag, security required) over lists of real "
                   "servers addressed by different names, of different kinds (tcp+tls, StartTLS, wss) and with different certificates, in "
                   "both orders and across the loss of the serving upstream, against C16_verified_failover / _mirror / _reconnect, where "
-                  "usable is a function of the upstream alone (C16_usable_intrinsic).",
+                  "usable is a function of the upstream alone (C16_usable_intrinsic); `poldirect` drives the real HandleConnection of listeners "
+                  "with a reachable / refusing / absent forward address over one shared Upstreams and ends each established direct "
+                  "connection by close or reset from either side (real loopback TCP, SO_LINGER 0), sampling after HandleConnection "
+                  "returned: upstreams dialled, physical connections held, logical connections that reached a server channel; plus the "
+                  "same end to end (`net`: real client and server commands, counting relay).",
     "technique": "Lean 4 proof (inductive invariant over a transition system, all interleavings; characterisation of the sequential "
                  "policy function) + regenerated facts + scripted correspondence + e2e",
     "components": [{"name": "policy", "timeout": {"quick": 600, "thorough": 2400}},
                    {"name": "polnet", "timeout": {"quick": 300, "thorough": 900}},
-                   {"name": "poltls", "timeout": {"quick": 600, "thorough": 1500}}],
+                   {"name": "poltls", "timeout": {"quick": 600, "thorough": 1500}},
+                   {"name": "poldirect", "timeout": {"quick": 300, "thorough": 900}}],
     "rule": "policy: every upstream list of length 1..2 (thorough: 1..4, 780 lists) over {refused, silent, garbage, plain, secure} "
             "x security requirement x {reuse+cut+reconnect, concurrent+cut, close}; failing prefixes of every kind before the first "
             "usable upstream at every position of lists of 3..4; every forward-address form; 30 enumerated histories over "
@@ -47,7 +55,10 @@ CONFIG = {
             "kinds {tcp+tls, StartTLS, wss} x the two upstreams addressed by different names x state pairs {cert both, nameonly, iponly, "
             "dead}^2; kill / cut of the serving upstream for every ordered pair of kinds x names x second-upstream states; triples "
             "(dead, unusable by name, healthy); thorough: 150 random lists of 2..3. monitor: the first upstream in list order that is "
-            "live and whose certificate carries the name it is addressed by serves; reversed list likewise. non-trivial = some "
+            "live and whose certificate carries the name it is addressed by serves; reversed list likewise. poldirect: 6 upstream lists "
+            "x security requirement x 17 histories over {app close, target close, target reset, app reset, refused forward, upstream "
+            "connection, cut} + random histories; e2e net x {tcp, ws} (thorough: 5 carriers x 4 endings). monitor: served by the "
+            "forward address => no upstream dialled, no logical connection opened, no new physical connection afterwards. non-trivial = some "
             "local connection served; distinct = distinct op line",
     "trusted_base": COMMON_TB + ["Go runtime, net.Pipe, smux (OpenStream fails on a lost carrier), go-multistream",
                                  "x509 hypothesis of poltls: a certificate is accepted iff signed by the client's CA and carrying the "
@@ -55,5 +66,6 @@ CONFIG = {
     "assumptions": ["blocked = neither served nor refused within 4 s, confirmed by a rerun with 10 s",
                     "a silent peer is detected through the deadline the client sets (compressed to 40 ms; 60 ms towards a peer that stalls later in the handshake, rerun with 2 s when the stall point was not reached in time); OS dial timeouts are not exercised",
                     "a stall after the socketace handshake (first smux/multistream answer) is bounded by smux's keep-alive (30 s), its contract: not driven",
+                    "poldirect: a forward target that accepts and resets before the first byte is not driven (the code counts it as direct route taken); e2e `net` watches the upstream server for 1.2 s after the direct connection ended",
                     "polnet deadlines 5 s + one retry; the silent-first / stalltls scenarios wait for the real 20 s HandshakeTimeout, silentws for the websocket dialer's 45 s (thorough tier only)"],
 }
